@@ -6,24 +6,32 @@ package notifier
 // file shipped in config/ and a generated group status; the template is parsed exactly as
 // Coordinator.Configure does and rendered with executeTemplate, as the http and email notifiers do.
 // Output per case: "OK json=<0|1>" (rendered; json.Valid of the bytes) or "ERR".
-// A second kind of case, "offer <hex template text>", executes a one-action template written against the documented
+// "conf" cases run the real Coordinator.Configure (default parser) and execute the templates it stored: see vtConf.
+// A further kind of case, "offer <hex template text>", executes a one-action template written against the documented
 // data fields / helper functions (parsed with helperFunctionMap, executed with executeTemplate on a fixed status) and
 // prints "OK <hex of the output>", "PARSE-ERR" or "ERR".
 
 import (
 	"bufio"
+	"bytes"
 	"encoding/hex"
 	"encoding/json"
 	"fmt"
 	"math"
 	"os"
 	"path/filepath"
+	"sort"
 	"strconv"
 	"strings"
+	"sync"
 	"testing"
 	"text/template"
 	"time"
 
+	"github.com/spf13/viper"
+	"go.uber.org/zap"
+
+	"github.com/linkedin/Burrow/core/internal/helpers"
 	"github.com/linkedin/Burrow/core/protocol"
 )
 
@@ -116,19 +124,7 @@ func vtTemplate(name string) (*template.Template, error) {
 	return res, err
 }
 
-func vtRender(t *vtTokens) (res string) {
-	defer func() {
-		if r := recover(); r != nil {
-			res = "PANIC"
-		}
-	}()
-	name := t.next()
-	_ = t.next() // stateGood: which of the module's two templates the notifier picked; the data is the same
-	cluster, group, id := t.str(), t.str(), t.str()
-	var start time.Time
-	if s := t.i64(); s != 0 {
-		start = time.Unix(s, 0)
-	}
+func (t *vtTokens) extras() map[string]string {
 	var extras map[string]string
 	if n := t.i64(); n >= 0 {
 		extras = make(map[string]string)
@@ -137,6 +133,11 @@ func vtRender(t *vtTokens) (res string) {
 			extras[k] = t.str()
 		}
 	}
+	return extras
+}
+
+// status reads the group status that ends a case line
+func (t *vtTokens) status(cluster, group string) *protocol.ConsumerGroupStatus {
 	status := &protocol.ConsumerGroupStatus{Cluster: cluster, Group: group, Status: protocol.StatusConstant(t.i64())}
 	status.Complete = t.f32()
 	status.TotalPartitions = int(t.i64())
@@ -149,21 +150,205 @@ func vtRender(t *vtTokens) (res string) {
 			status.Partitions[i] = t.partition()
 		}
 	}
+	return status
+}
+
+func vtStart(s int64) time.Time {
+	if s != 0 {
+		return time.Unix(s, 0)
+	}
+	return time.Time{}
+}
+
+// vtExec renders with executeTemplate; returns the verdict line and the bytes
+func vtExec(tmpl *template.Template, extras map[string]string, status *protocol.ConsumerGroupStatus, id string, start time.Time) (res string, out []byte) {
+	defer func() {
+		if r := recover(); r != nil {
+			res, out = "PANIC", nil
+		}
+	}()
+	if tmpl == nil {
+		return "NIL-TEMPLATE", nil
+	}
+	buf, err := executeTemplate(tmpl, extras, status, id, start)
+	if err != nil {
+		if os.Getenv("VERIF_TMPL_ERRORS") != "" {
+			return "ERR " + strings.ReplaceAll(err.Error(), "\n", " "), nil
+		}
+		return "ERR", nil
+	}
+	if json.Valid(buf.Bytes()) {
+		return "OK json=1", buf.Bytes()
+	}
+	return "OK json=0", buf.Bytes()
+}
+
+func vtRender(t *vtTokens) (res string) {
+	defer func() {
+		if r := recover(); r != nil {
+			res = "PANIC"
+		}
+	}()
+	name := t.next()
+	_ = t.next() // stateGood: which of the module's two templates the notifier picked; the data is the same
+	cluster, group, id := t.str(), t.str(), t.str()
+	start := vtStart(t.i64())
+	extras := t.extras()
+	status := t.status(cluster, group)
 	tmpl, err := vtTemplate(name)
 	if err != nil {
 		return "PARSE-ERR"
 	}
-	out, err := executeTemplate(tmpl, extras, status, id, start)
-	if err != nil {
-		if os.Getenv("VERIF_TMPL_ERRORS") != "" {
-			return "ERR " + strings.ReplaceAll(err.Error(), "\n", " ")
+	res, _ = vtExec(tmpl, extras, status, id, start)
+	return res
+}
+
+type vtModule struct {
+	name, class, open, close string
+	sendClose              bool
+	extras                 map[string]string
+}
+
+// vtStored returns the template objects and extras Coordinator.Configure handed to a module
+func vtStored(m protocol.Module) (open, close *template.Template, extras map[string]string, ok bool) {
+	switch mod := m.(type) {
+	case *HTTPNotifier:
+		return mod.templateOpen, mod.templateClose, mod.extras, true
+	case *EmailNotifier:
+		return mod.templateOpen, mod.templateClose, mod.extras, true
+	case *NullNotifier:
+		return mod.templateOpen, mod.templateClose, mod.extras, true
+	}
+	return nil, nil, nil, false
+}
+
+// vtConf: the REAL Coordinator.Configure with its default template parser on a generated notifier section
+// (1-4 modules whose template-open / template-close name shipped files), repeated several times (a template set
+// shared between files would make Templates()[0] depend on map iteration order).  For every module the template objects
+// the coordinator stored are executed with executeTemplate and the extras it stored; the bytes must be those of the
+// named file parsed on its own, every time.  Output: "<module> open=<verdict> close=<verdict|none>" per module (sorted),
+// joined by " | "; a difference is reported as "<module> MISMATCH ...".
+func vtConf(t *vtTokens) (res string) {
+	defer func() {
+		if r := recover(); r != nil {
+			res = fmt.Sprintf("CONFIGURE-PANIC %v", r)
 		}
-		return "ERR"
+	}()
+	reps := int(t.i64())
+	nm := int(t.i64())
+	repo := os.Getenv("VERIF_REPO")
+	if repo == "" {
+		repo = "/repo"
 	}
-	if json.Valid(out.Bytes()) {
-		return "OK json=1"
+	mods := make([]vtModule, nm)
+	for i := range mods {
+		mods[i] = vtModule{name: t.next(), class: t.next(), open: t.next(), close: t.next(), sendClose: t.next() == "1"}
+		mods[i].extras = t.extras()
 	}
-	return "OK json=0"
+	sort.Slice(mods, func(i, j int) bool { return mods[i].name < mods[j].name })
+	cluster, group, id := t.str(), t.str(), t.str()
+	start := vtStart(t.i64())
+	status := t.status(cluster, group)
+
+	// the named files parsed on their own
+	type rendering struct {
+		verdict string
+		out     []byte
+	}
+	alone := func(file string, extras map[string]string) rendering {
+		tmpl, err := vtTemplate(file)
+		if err != nil {
+			return rendering{"PARSE-ERR", nil}
+		}
+		v, out := vtExec(tmpl, extras, status, id, start)
+		return rendering{v, out}
+	}
+	// which shipped file renders to these bytes (diagnosis only)
+	which := func(out []byte, extras map[string]string) string {
+		files, _ := filepath.Glob(filepath.Join(repo, "config", "*.tmpl"))
+		for _, f := range files {
+			if r := alone(filepath.Base(f), extras); r.out != nil && bytes.Equal(r.out, out) {
+				return filepath.Base(f)
+			}
+		}
+		return "?"
+	}
+	verdicts := make([]string, len(mods))
+	for i, m := range mods {
+		verdicts[i] = m.name + " open=" + alone(m.open, m.extras).verdict + " close="
+		if m.sendClose {
+			verdicts[i] += alone(m.close, m.extras).verdict
+		} else {
+			verdicts[i] += "none"
+		}
+	}
+	var coordinator *Coordinator
+	for rep := 0; rep <= reps; rep++ {
+		if rep < reps || coordinator == nil {
+			// a fresh coordinator with the DEFAULT template parser (templateParseFunc left nil)
+			coordinator = &Coordinator{Log: zap.NewNop()}
+			coordinator.App = &protocol.ApplicationContext{
+				Logger:             zap.NewNop(),
+				StorageChannel:     make(chan *protocol.StorageRequest),
+				EvaluatorChannel:   make(chan *protocol.EvaluatorRequest),
+				Zookeeper:          &helpers.MockZookeeperClient{},
+				ZookeeperRoot:      "/burrow",
+				ZookeeperConnected: true,
+				ZookeeperExpired:   &sync.Cond{L: &sync.Mutex{}},
+			}
+		} // the last round configures the same coordinator a second time
+		viper.Reset()
+		for _, m := range mods {
+			root := "notifier." + m.name
+			viper.Set(root+".class-name", m.class)
+			viper.Set(root+".template-open", filepath.Join(repo, "config", m.open))
+			viper.Set(root+".template-close", filepath.Join(repo, "config", m.close))
+			viper.Set(root+".send-close", m.sendClose)
+			for k, v := range m.extras {
+				viper.Set(root+".extras."+k, v)
+			}
+			switch m.class {
+			case "http":
+				viper.Set(root+".url-open", "http://127.0.0.1:1/open")
+				viper.Set(root+".url-close", "http://127.0.0.1:1/close")
+			case "email":
+				viper.Set(root+".server", "127.0.0.1")
+				viper.Set(root+".port", 25)
+				viper.Set(root+".from", "burrow@example.com")
+				viper.Set(root+".to", "oncall@example.com")
+			}
+		}
+		coordinator.Configure()
+		if len(coordinator.modules) != len(mods) {
+			return fmt.Sprintf("MISMATCH rep=%d: %d modules configured, %d in the configuration", rep, len(coordinator.modules), len(mods))
+		}
+		for _, m := range mods {
+			topen, tclose, extras, ok := vtStored(coordinator.modules[m.name])
+			if !ok {
+				return fmt.Sprintf("%s MISMATCH rep=%d: module of class %s not found", m.name, rep, m.class)
+			}
+			check := func(kind, file string, tmpl *template.Template) string {
+				want := alone(file, m.extras)
+				v, out := vtExec(tmpl, extras, status, id, start)
+				if v != want.verdict && !(strings.HasPrefix(v, "ERR") && strings.HasPrefix(want.verdict, "ERR")) {
+					return fmt.Sprintf("%s MISMATCH rep=%d: the %s template the coordinator stored gives %s, the file %s gives %s", m.name, rep, kind, v, file, want.verdict)
+				}
+				if out != nil && !bytes.Equal(out, want.out) {
+					return fmt.Sprintf("%s MISMATCH rep=%d: the %s template the coordinator stored does not render as its file %s but as %s", m.name, rep, kind, file, which(out, m.extras))
+				}
+				return ""
+			}
+			if d := check("open", m.open, topen); d != "" {
+				return d
+			}
+			if m.sendClose {
+				if d := check("close", m.close, tclose); d != "" {
+					return d
+				}
+			} // without send-close no close notification is ever sent: whatever is stored for close is never executed
+		}
+	}
+	return strings.Join(verdicts, " | ")
 }
 
 // vtOffer: does the data handed to templates offer this field / helper?  The status has one listed partition, which is
@@ -226,6 +411,8 @@ func TestVerifProbeTmpl(t *testing.T) {
 			fmt.Fprintln(w, vtRender(tk))
 		case "offer":
 			fmt.Fprintln(w, vtOffer(tk))
+		case "conf":
+			fmt.Fprintln(w, vtConf(tk))
 		default:
 			t.Fatalf("unknown case kind in %q", line)
 		}
